@@ -563,8 +563,9 @@ def run(rep):
     rep.validated_runs(1)
     if bad:
         rep.finding('C16/K-points/%s' % cls, dict(seed=rep.seed, two=True), detail, kernel='K-points')
-    bad, cls, detail = real_oracle(rep.seed)
-    rep.validated_runs(40)
+    nor = 600 if rep.tier == 'thorough' else 40
+    bad, cls, detail = real_oracle(rep.seed, nor)
+    rep.validated_runs(nor)
     if bad:
         rep.finding('C16/K-vectors/%s' % cls if 'roundtrip' in cls or cls in ('ellipse-length', 'position-angle') else 'C16/K-points/%s' % cls, dict(seed=rep.seed), detail, kernel='K-vectors')
 
